@@ -10,6 +10,7 @@
 import Verif.Lemmas.WireRd
 import Verif.Lemmas.WireMsg
 import Verif.Lemmas.WireTotal
+import Verif.Lemmas.WireMsgAny
 namespace Verif.C12
 open Verif.Wire
 
@@ -18,7 +19,11 @@ theorem msgbegin_length (name : Bytes) (typ seq : Int) :
     lenMessageBegin name = (enc (.messageBegin name typ seq)).length := by
   simp [enc, u32, lenMessageBegin]; omega
 
-/-- msgbegin_roundtrip: for every name shorter than 2^31 bytes, every int32 message type and seq:
+/-- msgbegin_roundtrip: for every name shorter than 2^31 bytes, every int32 message type and seq
+    (`inI32 typ`, `inI32 seq` are exactly the ranges of the Go parameters `typeID TMessageType` = int32
+    and `seq int32`: nothing else is representable at the call; `name.length < 2^31` is the writers'
+    length limit — they emit `uint32(len(name))` and the readers take it back as an int32; what
+    happens beyond is `msgbegin_rejects_long_name`):
     the three writers emit the same bytes `enc (.messageBegin name typ seq)`, and both readers read
     them back as the same name, `typ mod 2^16` (= `typ & 0xffff`), the same seq, consuming exactly
     MessageBeginLength(name) bytes. The stream reader is stated over the cursor contract
@@ -213,7 +218,89 @@ theorem exception_surfaces {α : Type} (C : Codec α) (dirty : Nat → UInt8) (m
   have h3 : Facts.mEXCEPTION = 3 := by decide
   exact unmarshal_exception C method typ seq ex target hn' hs (by rw [h3]; exact hexc) hx
 
+/-- beyond the length limit the behaviour is defined and safe: a name of 2^31 … 2^32-1 bytes is written
+    with its length as uint32, which the buffer reader sees as a negative int32 and rejects with
+    INVALID_DATA (DESIGN §6.5) — it is never read back as a different header. (Lengths ≥ 2^32 wrap the
+    4-byte prefix; no Go program can hold such a string and a buffer for it within the model's 2^47 bound.) -/
+theorem msgbegin_rejects_long_name (name rest : Bytes) (typ seq : Int) (ht : inI32 typ) (hs : inI32 seq)
+    (h1 : 2^31 ≤ name.length) (h2 : name.length < 2^32) :
+    binReadMessageBegin (enc (.messageBegin name typ seq) ++ rest) = .err (.pe 1, 0) := by
+  rw [enc_eq_encM _ (show (Val.messageBegin name typ seq).args from ⟨ht, hs⟩), ← errShort_id]
+  exact msg_long_name_rejected name rest typ seq (by simpa using h1) (by simpa using h2)
+
+/-- exception_always_error: for EVERY byte string `b`, every payload codec and every caller struct `s`:
+    if the header of `b` reads as message type EXCEPTION (the 16-bit type field equals 3 — the code
+    compares `TMessageType(header & 0xffff) == EXCEPTION`, mirrored at that width), UnmarshalFastMsg
+    returns (method, seq) and a non-nil error — the ApplicationException decoded from the body (for any
+    body its FastRead accepts, marshalled by this library or not), or the body's decode error — and
+    the caller's struct is returned exactly as it was passed (the payload codec is never run). -/
+theorem exception_always_error {α : Type} (C : Codec α) (b : Bytes) (s : α) (method : Bytes) (typ seq : Int)
+    (i : Nat) (h : binReadMessageBegin b = .ok (method, typ, seq, i)) (ht : typ = 3) :
+    ∃ e, unmarshalFastMsg C b s = .ok ⟨method, seq, some e, s⟩ ∧
+      ((∃ ex n, appExRead ⟨0, []⟩ (b.drop i) = (ex, .ok n) ∧ e = .appEx ex.t ex.m) ∨
+       (∃ ex er, appExRead ⟨0, []⟩ (b.drop i) = (ex, .err er) ∧ e = .t er)) := by
+  have h3 : ((Facts.mEXCEPTION : Nat) : Int) = 3 := by decide
+  have h0 : Facts.aeUNKNOWN = 0 := by decide
+  have := unmarshal_exception_any C b s method typ seq i h (by rw [h3]; exact ht)
+  rwa [h0] at this
+
+/-- non_exception_never_exception_path: for EVERY byte string whose header reads with a type other than
+    EXCEPTION (CALL = 1, REPLY = 2, ONEWAY = 4, and every other value of the 16-bit field), the outcome
+    is exactly that of the caller's own `FastRead` on the bytes after the header: nil error and the
+    struct as FastRead left it, or FastRead's error — never an application exception, and
+    ApplicationException.FastRead is not run -/
+theorem non_exception_never_exception_path {α : Type} (C : Codec α) (b : Bytes) (s : α) (method : Bytes)
+    (typ seq : Int) (i : Nat) (h : binReadMessageBegin b = .ok (method, typ, seq, i)) (ht : typ ≠ 3) :
+    unmarshalFastMsg C b s =
+      match (C.read s (b.drop i)).2 with
+      | .ok _ => .ok ⟨method, seq, none, (C.read s (b.drop i)).1⟩
+      | .err e => .ok ⟨method, seq, some (.t e), (C.read s (b.drop i)).1⟩
+      | .panic p => .panic p
+      | .oob => .oob := by
+  have h3 : ((Facts.mEXCEPTION : Nat) : Int) = 3 := by decide
+  have hi := msgbegin_ok_le b _ h
+  exact unmarshal_plain_gen C b s method typ seq i h (by simpa using hi) (by rw [h3]; exact ht)
+
+/-- the type the header check sees is the low 16 bits of the first word: CALL, REPLY and ONEWAY headers
+    never take the exception path, whatever follows -/
+theorem call_reply_oneway_not_exception (b method : Bytes) (typ seq : Int) (i : Nat)
+    (h : binReadMessageBegin b = .ok (method, typ, seq, i)) :
+    typ = ((rd32 b % 65536 : Nat) : Int) ∧ (rd32 b % 65536 = 1 ∨ rd32 b % 65536 = 2 ∨ rd32 b % 65536 = 4 → typ ≠ 3) := by
+  rw [binReadMessageBegin_char] at h
+  repeat' split at h
+  all_goals simp at h
+  refine ⟨h.2.1.symm, ?_⟩
+  intro hc; rw [← h.2.1]; omega
+
+/-- marshal_unmarshal_exception: the complement of `marshal_unmarshal` (so the round trip is stated for
+    every int32 type): for typ mod 2^16 = EXCEPTION, marshalling an ApplicationException `(t, m)` gives
+    header ++ its Thrift struct encoding, and unmarshalling those bytes — into any codec / any caller
+    struct — returns the same method and seq and the error carrying exactly `(t, m)`; the caller's struct
+    is unchanged -/
+theorem marshal_unmarshal_exception {α : Type} (C : Codec α) (dirty : Nat → UInt8) (method : Bytes) (typ seq : Int)
+    (ex : AppEx) (target : α) (hm : method ≠ []) (hn : method.length < 2^31) (ht : inI32 typ) (hs : inI32 seq)
+    (hexc : msgType16 typ = 3) (hx : ex.wf) :
+    ∃ b, marshalFastMsg appExCodec dirty method typ seq ex = .ok b ∧
+         b = enc (.messageBegin method typ seq) ++
+             (enc (.fieldBegin 11 1) ++ enc (.str ex.m) ++ enc (.fieldBegin 8 2) ++ enc (.i32 ex.t) ++ enc .fieldStop) ∧
+         unmarshalFastMsg C b target = .ok ⟨method, seq, some (.appEx ex.t ex.m), target⟩ := by
+  have hn' : method.length < 2147483648 := by simpa using hn
+  have h3 : Facts.mEXCEPTION = 3 := by decide
+  refine ⟨_, marshal_ok appExCodec AppEx.wf appExEncM appExCodecOK dirty method typ seq ex hm hx, ?_, ?_⟩
+  · rw [enc_eq_encM _ (show (Val.messageBegin method typ seq).args from ⟨ht, hs⟩), appExEncM_eq_enc ex hx.2]
+  · exact unmarshal_exception C method typ seq ex target hn' hs (by rw [h3]; exact hexc) hx
+
 /-! ## non-vacuity -/
+
+/-- a ONEWAY header followed by an exception-shaped body: hypotheses of `non_exception_never_exception_path` -/
+example : ∃ m t s i, binReadMessageBegin [0x80, 0x01, 0, 4, 0, 0, 0, 1, 0x66, 0, 0, 0, 7, 11, 0, 1, 0, 0, 0, 0, 0] = .ok (m, t, s, i)
+    ∧ t ≠ 3 := ⟨[0x66], 4, 7, 13, by decide +kernel, by decide⟩
+/-- an EXCEPTION header with a body that is NOT a marshalled exception (unknown field first): hypotheses
+    of `exception_always_error` -/
+example : ∃ m t s i, binReadMessageBegin [0x80, 0x01, 0, 3, 0, 0, 0, 0, 0, 0, 0, 9, 2, 0, 5, 1, 0] = .ok (m, t, s, i)
+    ∧ t = 3 := ⟨[], 3, 9, 12, by decide +kernel, by decide⟩
+example : (2:Nat)^31 ≤ 2147483648 ∧ 2147483648 < (2:Nat)^32 := by decide
+
 
 /-- ApplicationException's own FastCodec satisfies the codec hypotheses of `marshal_unmarshal` -/
 example : CodecOK appExCodec AppEx.wf appExEncM := appExCodecOK
